@@ -1281,6 +1281,15 @@ func (e *Env) pureCall(fn *types.Func, keys []string, args []Value) (Value, erro
 	// accessor convention
 	name := fn.Name()
 	if len(args) == 1 && (strings.HasPrefix(name, "Get") || strings.HasPrefix(name, "Is") || strings.HasPrefix(name, "Has")) {
+		if rv := sig.Recv(); rv != nil {
+			if _, isIface := rv.Type().Underlying().(*types.Interface); !isIface {
+				if sf := x.L.Prog.FuncValue(fn); sf != nil && inModule(sf) && sf.Synthetic == "" {
+					// The executor inlines this getter (module code on a concrete receiver) and so
+					// reads the field; the model field of the same name is unrelated to it.
+					return nil, fmt.Errorf("%s is module code that is executed, not a model field: name the field it returns instead", keys[0])
+				}
+			}
+		}
 		if ref, ok := objRef(args[0]); ok {
 			return x.mfRead(e.st, mfName(name), ref, nil, rt), nil
 		}
